@@ -28,11 +28,13 @@ const C05Domain = "t.example.org"
 
 var c05Once sync.Once
 var c05pki *C05PKI
+var c05ca1, c05ca2 *ca
 
 // GetC05PKI generates the C05 certificate set once per process.
 func GetC05PKI() *C05PKI {
 	c05Once.Do(func() {
 		c1, c2 := newCA("verif C05 CA one"), newCA("verif C05 CA two")
+		c05ca1, c05ca2 = c1, c2 // (kept for C05ChainPKI, c05_chain.go)
 		now := time.Now()
 		from, to := now.Add(-24*time.Hour), now.Add(365*24*time.Hour)
 		names := []string{"localhost", C05Domain}
